@@ -133,6 +133,111 @@ theorem lockset_sound_tokens {tbl : List Access} (tokens : List Mutex) (hrf : ra
     have htk'' : tokens.contains k.m = false := by rw [← hm]; exact htk'
     exact hb_of_common_lock hij hi hj htu (hal h hh htk') (hbl k hk htk'') hm hx
 
+
+/-- after a successful exclusive acquire at position `c`, the acquirer holds the mutex at position `c+1` -/
+theorem holdsAt_after_acq {tr : List Ev} (hwf : WF tr) {c : Nat} {u : Tid} {m : Mutex}
+    (hc : tr[c]? = some (.acq u m .excl)) : HoldsAt tr (c + 1) u ⟨m, .excl⟩ := by
+  obtain ⟨sf, hsf⟩ := hwf
+  have hsplit : runL LState.init (tr.take (c + 1) ++ tr.drop (c + 1)) = some sf := by
+    rw [List.take_append_drop]; exact hsf
+  rw [runL_append] at hsplit
+  cases h1 : runL LState.init (tr.take (c + 1)) with
+  | none => rw [h1] at hsplit; cases hsplit
+  | some s1 =>
+    refine ⟨s1, h1, ?_⟩
+    have ht : tr.take (c + 1) = tr.take c ++ [Ev.acq u m .excl] := by
+      rw [List.take_add_one, hc]; rfl
+    rw [ht, runL_append] at h1
+    cases h0 : runL LState.init (tr.take c) with
+    | none => rw [h0] at h1; cases h1
+    | some s0 =>
+      rw [h0] at h1
+      simp only [Option.bind, runL] at h1
+      cases hs : stepL s0 (Ev.acq u m .excl) with
+      | none => rw [hs] at h1; cases h1
+      | some s2 =>
+        rw [hs] at h1
+        simp only [Option.some.injEq] at h1
+        subst h1
+        simp only [stepL] at hs
+        by_cases hf : (s0 m).writer = none ∧ (s0 m).readers = []
+        · rw [if_pos hf] at hs
+          simp only [Option.some.injEq] at hs
+          subst hs
+          simp [holdsIn, LState.set]
+        · rw [if_neg hf] at hs; cases hs
+
+/-- **closed-flag barrier.**  `t` performs an access at `i` inside a critical section of `m` (exclusive, or shared);
+    a different goroutine `u` later enters an exclusive critical section of `m` at `c > i` (the section that sets the
+    `closed` flag) and performs an access at `j > c` — possibly after leaving the section, holding nothing.  Then the
+    two accesses are ordered by happens-before: `t`'s release of `m`, `u`'s acquisition at or before `c`, program order. -/
+theorem barrier_orders {tr : List Ev} (hwf : WF tr) {i c j : Nat} {t u : Tid} {a b : Access} {m : Mutex} {mode : Mode}
+    (hi : tr[i]? = some (.acc t a)) (hj : tr[j]? = some (.acc u b)) (htu : t ≠ u)
+    (hh : HoldsAt tr i t ⟨m, mode⟩)
+    (hic : i < c) (hcj : c < j) (hc : tr[c]? = some (.acq u m .excl)) : HB tr i j := by
+  obtain ⟨si, hsi, hhi⟩ := hh
+  obtain ⟨sc, hsc, hhc⟩ := holdsAt_after_acq hwf hc
+  obtain ⟨d, hd⟩ : ∃ d, c + 1 = i + d := ⟨c + 1 - i, by omega⟩
+  rw [hd, List.take_add, runL_append, hsi] at hsc
+  simp only [Option.bind] at hsc
+  have hI : Inv si := inv_run inv_init hsi
+  obtain ⟨p, q, hpq, hp', hq'⟩ := release_then_acquire hI hsc hhi hhc htu (Or.inr rfl)
+  have seg : ∀ (n : Nat) (e : Ev), (List.take d (List.drop i tr))[n]? = some e → tr[i + n]? = some e ∧ n < d := by
+    intro n e hn
+    have hlt : n < d := by
+      have := (List.getElem?_eq_some_iff.1 hn).1
+      have h2 := List.length_take_le d (List.drop i tr)
+      omega
+    rw [List.getElem?_take_of_lt hlt, List.getElem?_drop] at hn
+    exact ⟨hn, hlt⟩
+  obtain ⟨hP, _⟩ := seg p _ hp'
+  obtain ⟨hQ, hqd⟩ := seg q _ hq'
+  have hp0 : p ≠ 0 := by
+    intro h0; subst h0
+    rw [Nat.add_zero, hi] at hP; cases hP
+  have e1 : HB tr i (i + p) := HB.po (by omega) hi hP rfl
+  have e2 : HB tr (i + p) (i + q) := HB.sync (by omega) hP hQ (Or.inr rfl)
+  have e3 : HB tr (i + q) j := HB.po (by omega) hQ hj rfl
+  exact HB.trans e1 (HB.trans e2 e3)
+
+
+/-! ### barrier tokens: the ordering claim reduced to lock events
+
+A `barrier:` / `order:` token stands for the *closed-flag barrier*: guarded accesses (`wg.Add`, `r.cancel = …`) are
+performed under the guard mutex `g` and only while `!closed`; the closing goroutine sets `closed` in an exclusive
+critical section of `g` and performs its access (`wg.Wait()`, the read of `r.cancel`) afterwards, holding nothing.  In
+terms of events: for two conflicting accesses that share the token, either both sit in critical sections of `g` (two
+guarded accesses), or the earlier one does and the later one's goroutine entered an exclusive section of `g` in
+between (guarded, then closing).  The remaining order — closing access first, guarded access later — is what the
+guard excludes; `BarrierProtocol` claims that it does not occur. -/
+def BarrierProtocol (tok g : Mutex) (tr : List Ev) : Prop :=
+  ∀ (i j : Nat) t u a b, i < j → tr[i]? = some (Ev.acc t a) → tr[j]? = some (Ev.acc u b) → t ≠ u → conflict a b = true →
+    (∃ h, h ∈ a.locks ∧ ∃ k, k ∈ b.locks ∧ h.m = k.m ∧ h.m = tok) →
+    (∃ m₁ m₂, HoldsAt tr i t ⟨g, m₁⟩ ∧ HoldsAt tr j u ⟨g, m₂⟩ ∧ (m₁ = .excl ∨ m₂ = .excl)) ∨
+    ((∃ m₁, HoldsAt tr i t ⟨g, m₁⟩) ∧ ∃ c, i < c ∧ c < j ∧ tr[c]? = some (Ev.acq u g .excl))
+
+/-- the ordering claim of a barrier token follows from the lock events: no assumption about "hand-offs" is left,
+    only the shape of the critical sections -/
+theorem tokenOrdered_of_barrier {tok g : Mutex} {tr : List Ev} (hwf : WF tr) (hb : BarrierProtocol tok g tr) :
+    TokenOrdered [tok] tr := by
+  intro i j t u a b hij hi hj htu hc ⟨h, hh, k, hk, hm, htk⟩
+  have htok : h.m = tok := by simpa using htk
+  rcases hb i j t u a b hij hi hj htu hc ⟨h, hh, k, hk, hm, htok⟩ with ⟨m₁, m₂, h₁, h₂, hx⟩ | ⟨⟨m₁, h₁⟩, c, hic, hcj, hcq⟩
+  · exact hb_of_common_lock (h := ⟨g, m₁⟩) (k := ⟨g, m₂⟩) hij hi hj htu (Or.inl h₁) (Or.inl h₂) rfl hx
+  · exact barrier_orders hwf hi hj htu h₁ hic hcj hcq
+
+theorem tokenOrdered_mem {toks : List Mutex} {tr : List Ev} (h : TokenOrdered toks tr) {x : Mutex} (hx : x ∈ toks) :
+    TokenOrdered [x] tr := by
+  intro i j t u a b hij hi hj htu hc ⟨p, hp, k, hk, hm, htk⟩
+  have : p.m = x := by simpa using htk
+  exact h i j t u a b hij hi hj htu hc ⟨p, hp, k, hk, hm, by rw [this]; simpa using hx⟩
+
+theorem tokenOrdered_of_forall {toks : List Mutex} {tr : List Ev} (h : ∀ x, x ∈ toks → TokenOrdered [x] tr) :
+    TokenOrdered toks tr := by
+  intro i j t u a b hij hi hj htu hc ⟨p, hp, k, hk, hm, htk⟩
+  have hmem : p.m ∈ toks := by simpa using htk
+  exact h p.m hmem i j t u a b hij hi hj htu hc ⟨p, hp, k, hk, hm, by simp⟩
+
 /-- **lockset_sound** — if the table satisfies the lockset discipline then no well-formed execution
     that respects the table contains a data race. -/
 theorem lockset_sound {tbl : List Access} (hrf : raceFree tbl = true) :
@@ -197,6 +302,39 @@ example : conflict exW exR = true := by decide
     the discipline is not vacuous. -/
 theorem unlocked_rejected : raceFree [exW, exU] = false := by decide
 
+/-- … and such a table really has a racy execution in the model: two goroutines performing the unlocked write, nothing
+    else — well formed, respects the table, and the two writes are not ordered by happens-before.  The discipline is
+    sharp: what it rejects here is a race, not an artefact. -/
+def racyTrace : List Ev := [.acc 1 exU, .acc 2 exU]
+
+theorem racyTrace_quiet : Quiet racyTrace := by
+  intro i e h
+  have : e = .acc 1 exU ∨ e = .acc 2 exU := by
+    match i, h with
+    | 0, h => left; simpa [racyTrace] using h.symm
+    | 1, h => right; simpa [racyTrace] using h.symm
+    | n + 2, h => simp [racyTrace] at h
+  rcases this with rfl | rfl <;>
+    exact ⟨(fun _ _ _ h => by cases h), (fun _ _ h => by cases h), (fun _ _ h => by cases h)⟩
+
+theorem unlocked_pair_races : WF racyTrace ∧ Respects [exU] racyTrace ∧ Race racyTrace := by
+  refine ⟨⟨_, rfl⟩, ?_, ?_⟩
+  · intro i t a h
+    have : a = exU := by
+      match i, h with
+      | 0, h => have := h; simp [racyTrace] at this; exact this.2.symm
+      | 1, h => have := h; simp [racyTrace] at this; exact this.2.symm
+      | n + 2, h => simp [racyTrace] at h
+    subst this
+    exact ⟨List.mem_singleton.2 rfl, fun h hh => absurd hh List.not_mem_nil⟩
+  · refine ⟨0, 1, 1, 2, exU, exU, by decide, rfl, rfl, by decide, by decide, ?_⟩
+    intro hb
+    obtain ⟨a, b, ha, hb', hab⟩ := hb_same_tid_of_quiet racyTrace_quiet hb
+    have ea : a = .acc 1 exU := by simpa [racyTrace] using ha.symm
+    have eb : b = .acc 2 exU := by simpa [racyTrace] using hb'.symm
+    subst ea; subst eb
+    exact absurd hab (by decide)
+
 /-- shared/shared does not protect a write: two RLock holders, one of them writing, is rejected -/
 theorem shared_shared_rejected :
     raceFree [{ exW with locks := [⟨7, .shared⟩] }, exR] = false := by decide
@@ -204,6 +342,27 @@ theorem shared_shared_rejected :
 /-- an atomic pair is accepted without locks; atomic against plain is not -/
 theorem atomic_pair_ok : raceFree [{ exU with atomic := true }] = true := by decide
 theorem atomic_plain_rejected : raceFree [{ exU with atomic := true }, { exU with write := false }] = false := by decide
+
+/-- `sync.WaitGroup` reuse contract ("an `Add` that starts from zero must happen before `Wait`"; finding C10-D30).  The
+    WaitGroup's own methods are internally synchronised (rows of `T.f`, atomic), but the *contract* is a discipline of
+    the caller: the extractor emits `Add`/`Go` as a plain write and `Wait` as a plain read of the virtual field
+    `T.f/reuse`, so `Add ∥ Wait` is a conflicting pair like any other.  Shape of `Reader.join` before /repo 6e8933d:
+    `start` adds under the mutex (7) inside the closed-flag barrier (token 22), `Close` waits behind the barrier, and
+    the generation goroutine's `unsubscribe` waits holding nothing — rejected; without that row, accepted. -/
+def wgAdd : Access := { field := 1, write := true, atomic := false, locks := [⟨7, .excl⟩, ⟨22, .excl⟩], phase := .published, site := 10 }
+def wgWaitClose : Access := { field := 1, write := false, atomic := false, locks := [⟨22, .excl⟩], phase := .published, site := 11 }
+def wgWaitGen : Access := { field := 1, write := false, atomic := false, locks := [], phase := .published, site := 12 }
+theorem waitgroup_reuse_rejected : raceFree [wgAdd, wgWaitClose, wgWaitGen] = false := by decide
+theorem waitgroup_barrier_ok : raceFree [wgAdd, wgWaitClose] = true := by decide
+
+/-- a concrete execution of the protocol: goroutine 1 adds inside a critical section of mutex 7, goroutine 2 closes
+    (critical section of 7) and then waits holding nothing; the two accesses share no lock at the moment they are
+    performed, and are ordered. -/
+def barrierTrace : List Ev :=
+  [.acq 1 7 .excl, .acc 1 wgAdd, .rel 1 7 .excl, .acq 2 7 .excl, .rel 2 7 .excl, .acc 2 wgWaitClose]
+
+theorem barrierTrace_ordered : HB barrierTrace 1 5 :=
+  barrier_orders (m := 7) (mode := .excl) (c := 3) ⟨_, rfl⟩ rfl rfl (by decide) ⟨_, rfl, rfl⟩ (by decide) (by decide) rfl
 
 /-- A row the extractor emits for "write to the pointee after publication" / "use after Pool.Put" / "object
     retained in a field after Put" is a published, non-atomic write with no lock: such a row conflicts with
@@ -261,6 +420,9 @@ theorem repo_skeleton_entry_ok : entryOkB Gen.skeletons Gen.skRel Gen.skEntryR =
 theorem repo_rows_indexed : rowsIndexedB (allRows Gen.skeletons Gen.skRel Gen.skEntryR) Gen.skRowsT = true :=
   checkAll_rows repo_skeleton_check
 
+/-- the skeletons are numbered consecutively and no call is dangling (`targets_resolve`: every call target has a body) -/
+theorem repo_calls_resolve : indexedB Gen.skeletons = true ∧ targetsOkB Gen.skeletons = true := by decide +kernel
+
 /-- only function literals and functions with an unexported name start from a non-empty entry lockset: whatever can be
     entered from another package is analysed from ∅ -/
 theorem repo_entry_roots_ok : entryRootsOkB Gen.skeletonNames Gen.skEntryR = true := by decide +kernel
@@ -311,11 +473,15 @@ example : Run (envOf [(0, exBody)]) exBody []
 example : projT 1 [.acq 1 7 .excl, .acc 1 exW, .rel 1 7 .excl] =
     ([.acq ⟨7, .excl⟩, .acq ⟨7, .shared⟩, .acc 0 [⟨7, .shared⟩, ⟨7, .excl⟩], .rel 7] : List LEv).map shapeOf := by decide
 
-theorem repo_lists_empty : Gen.unjustifiedOcc = [] ∧ Gen.exemptOcc = [] := by decide
+/-- a row whose locks are not re-derived from the skeletons: listed as unjustified (the check fails then) or exempt
+    (its function uses control flow the skeletons do not express: `goto`, `fallthrough`); for such rows the Go-side
+    lockset is an assumption of the theorems below (`hext`).  Both lists are empty on the pinned tree. -/
+def NotRederived (a : Access) : Prop := Gen.unjustifiedOcc.contains a.site = true ∨ Gen.exemptOcc.contains a.site = true
 
-/-- the real locks of a table row are held — in the global lock state — whenever a conforming goroutine performs it -/
+/-- the real locks of a re-derived table row are held — in the global lock state — whenever a conforming goroutine performs it -/
 theorem repo_real_locks_held {tr : List Ev} (hwf : WF tr) {t : Tid} (hconf : Conforms tr t)
-    (hasm : AsmOk t LState.init tr) {i : Nat} {a : Access} (hi : tr[i]? = some (Ev.acc t a)) (ha : a ∈ Gen.accesses) :
+    (hasm : AsmOk t LState.init tr) {i : Nat} {a : Access} (hi : tr[i]? = some (Ev.acc t a)) (ha : a ∈ Gen.accesses)
+    (hre : ¬ NotRederived a) :
     ∀ x, x ∈ realLocks Gen.tokenIds a → HoldsAtLeast tr i t x := by
   obtain ⟨g, body, evs, h', o, hb, he, hrun, hpre⟩ := hconf
   obtain ⟨send, hsend⟩ := hwf
@@ -324,9 +490,16 @@ theorem repo_real_locks_held {tr : List Ev} (hwf : WF tr) {t : Tid} (hconf : Con
     simpa using this
   obtain ⟨sj, hk, hr, hmem, hheld⟩ :=
     sim t hsend (fun x hx => absurd hx List.not_mem_nil) hcons hpre hasm i a hi
+  have hnu : Gen.unjustifiedOcc.contains a.site = false := by
+    cases h : Gen.unjustifiedOcc.contains a.site with
+    | false => rfl
+    | true => exact absurd (Or.inl h) hre
+  have hne : Gen.exemptOcc.contains a.site = false := by
+    cases h : Gen.exemptOcc.contains a.site with
+    | false => rfl
+    | true => exact absurd (Or.inr h) hre
   have hsub : Sub (realLocks Gen.tokenIds a) hk :=
-    repo_locks_held hb (by rw [he]; exact sub_nil _) hrun ha
-      (by rw [repo_lists_empty.1]; rfl) (by rw [repo_lists_empty.2]; rfl) hmem
+    repo_locks_held hb (by rw [he]; exact sub_nil _) hrun ha hnu hne hmem
   intro x hx
   rcases hheld x (hsub x hx) with h1 | ⟨hm, h2⟩
   · exact Or.inl ⟨sj, hr, h1⟩
@@ -336,25 +509,29 @@ theorem repo_real_locks_held {tr : List Ev} (hwf : WF tr) {t : Tid} (hconf : Con
 theorem repo_respects_of_conformance {tr : List Ev} (hwf : WF tr)
     (hconf : ∀ t, Conforms tr t) (hasm : ∀ t, AsmOk t LState.init tr)
     (hrows : ∀ (i : Nat) t a, tr[i]? = some (Ev.acc t a) → a ∈ Gen.accesses)
-    (htok : ∀ (i : Nat) t a, tr[i]? = some (Ev.acc t a) → ∀ h, h ∈ a.locks → Gen.tokenIds.contains h.m = true → HoldsAtLeast tr i t h) :
+    (htok : ∀ (i : Nat) t a, tr[i]? = some (Ev.acc t a) → ∀ h, h ∈ a.locks → Gen.tokenIds.contains h.m = true → HoldsAtLeast tr i t h)
+    (hext : ∀ (i : Nat) t a, tr[i]? = some (Ev.acc t a) → NotRederived a → ∀ h, h ∈ a.locks → HoldsAtLeast tr i t h) :
     Respects Gen.accesses tr := by
   intro i t a hi
   refine ⟨hrows i t a hi, fun h hh => ?_⟩
+  by_cases hre : NotRederived a
+  · exact hext i t a hi hre h hh
   by_cases htk : Gen.tokenIds.contains h.m = true
   · exact htok i t a hi h hh htk
   · have hreal : h ∈ realLocks Gen.tokenIds a := by
       unfold realLocks
       exact List.mem_filter.2 ⟨hh, by simpa using htk⟩
-    exact repo_real_locks_held hwf (hconf t) (hasm t) hi (hrows i t a hi) h hreal
+    exact repo_real_locks_held hwf (hconf t) (hasm t) hi (hrows i t a hi) hre h hreal
 
 /-- **repo_no_race_of_conformance** — no data race in any well-formed execution whose goroutines follow the
     regenerated skeletons, whose accesses are table rows, and in which tokens and annotated assumptions hold. -/
 theorem repo_no_race_of_conformance {tr : List Ev} (hwf : WF tr)
     (hconf : ∀ t, Conforms tr t) (hasm : ∀ t, AsmOk t LState.init tr)
     (hrows : ∀ (i : Nat) t a, tr[i]? = some (Ev.acc t a) → a ∈ Gen.accesses)
-    (htok : ∀ (i : Nat) t a, tr[i]? = some (Ev.acc t a) → ∀ h, h ∈ a.locks → Gen.tokenIds.contains h.m = true → HoldsAtLeast tr i t h) :
+    (htok : ∀ (i : Nat) t a, tr[i]? = some (Ev.acc t a) → ∀ h, h ∈ a.locks → Gen.tokenIds.contains h.m = true → HoldsAtLeast tr i t h)
+    (hext : ∀ (i : Nat) t a, tr[i]? = some (Ev.acc t a) → NotRederived a → ∀ h, h ∈ a.locks → HoldsAtLeast tr i t h) :
     ¬ Race tr :=
-  repo_no_race tr hwf (repo_respects_of_conformance hwf hconf hasm hrows htok)
+  repo_no_race tr hwf (repo_respects_of_conformance hwf hconf hasm hrows htok hext)
 
 /-- **repo_no_race_of_conformance_tokens** — the same with the tokens read as ordering assumptions (no fictitious
     token events): goroutines follow the skeletons, accesses are table rows, annotated assumptions hold where marked,
@@ -362,13 +539,46 @@ theorem repo_no_race_of_conformance {tr : List Ev} (hwf : WF tr)
 theorem repo_no_race_of_conformance_tokens {tr : List Ev} (hwf : WF tr)
     (hconf : ∀ t, Conforms tr t) (hasm : ∀ t, AsmOk t LState.init tr)
     (hrows : ∀ (i : Nat) t a, tr[i]? = some (Ev.acc t a) → a ∈ Gen.accesses)
-    (htok : TokenOrdered Gen.tokenIds tr) : ¬ Race tr := by
+    (htok : TokenOrdered Gen.tokenIds tr)
+    (hext : ∀ (i : Nat) t a, tr[i]? = some (Ev.acc t a) → NotRederived a → ∀ h, h ∈ a.locks → HoldsAtLeast tr i t h) :
+    ¬ Race tr := by
   refine lockset_sound_tokens Gen.tokenIds repo_race_free tr hwf ?_ htok
   intro i t a hi
   refine ⟨hrows i t a hi, fun h hh hnt => ?_⟩
+  by_cases hre : NotRederived a
+  · exact hext i t a hi hre h hh
   have hreal : h ∈ realLocks Gen.tokenIds a := by
     unfold realLocks
     exact List.mem_filter.2 ⟨hh, by simpa using hnt⟩
-  exact repo_real_locks_held hwf (hconf t) (hasm t) hi (hrows i t a hi) h hreal
+  exact repo_real_locks_held hwf (hconf t) (hasm t) hi (hrows i t a hi) hre h hreal
+
+/-- every token of the table is a plain (assumed) token or a barrier token with its guard mutex -/
+theorem repo_tokens_covered :
+    Gen.tokenIds.all (fun x => Gen.plainTokenIds.contains x || Gen.barrierTokens.any (fun p => p.1 == x)) = true := by
+  decide
+
+/-- **repo_no_race_of_conformance_barriers** — as `repo_no_race_of_conformance_tokens`, with the ordering claim of the
+    closed-flag barrier tokens (`order:Reader.cancel`, `barrier:Reader.closed`, `barrier:Writer.closed`) no longer
+    assumed but derived from the lock events of the execution (`BarrierProtocol`: shape of the critical sections of the
+    guard mutex); only the ownership / `sync.Once` tokens remain ordering assumptions. -/
+theorem repo_no_race_of_conformance_barriers {tr : List Ev} (hwf : WF tr)
+    (hconf : ∀ t, Conforms tr t) (hasm : ∀ t, AsmOk t LState.init tr)
+    (hrows : ∀ (i : Nat) t a, tr[i]? = some (Ev.acc t a) → a ∈ Gen.accesses)
+    (hbar : ∀ p, p ∈ Gen.barrierTokens → BarrierProtocol p.1 p.2 tr)
+    (htok : TokenOrdered Gen.plainTokenIds tr)
+    (hext : ∀ (i : Nat) t a, tr[i]? = some (Ev.acc t a) → NotRederived a → ∀ h, h ∈ a.locks → HoldsAtLeast tr i t h) :
+    ¬ Race tr := by
+  refine repo_no_race_of_conformance_tokens hwf hconf hasm hrows (tokenOrdered_of_forall ?_) hext
+  intro x hx
+  have hc := List.all_eq_true.1 repo_tokens_covered x hx
+  simp only [Bool.or_eq_true, List.any_eq_true] at hc
+  rcases hc with hp | ⟨p, hp, hpx⟩
+  · exact tokenOrdered_mem htok (by simpa using hp)
+  · have hpx' : p.1 = x := by simpa using hpx
+    rw [← hpx']
+    exact tokenOrdered_of_barrier hwf (hbar p hp)
+
+-- On the pinned tree `Gen.unjustifiedOcc = []` and `Gen.exemptOcc = []`, i.e. `hext` is vacuous; the check reports a
+-- non-empty `unjustifiedOcc` as a broken obligation and a non-empty `exemptOcc` as a note in the evidence.
 
 end KV.C10
